@@ -174,6 +174,7 @@ func (r *resolver) enter(d Definition) ([]Definition, error) {
 				return nil, err
 			} else if !on {
 				delete(hasCases.cases, cident)
+				noteFeatureOff(hasCases, cident)
 				continue
 			}
 			if _, err := r.addDefinitions(c, c.popDataDefinitions()); err != nil {
@@ -192,6 +193,7 @@ func (r *resolver) enter(d Definition) ([]Definition, error) {
 				return nil, err
 			} else if !on {
 				delete(hasActions.Actions(), ident)
+				noteFeatureOff(d, ident)
 				continue
 			}
 			if _, err := r.enter(a); err != nil {
@@ -206,6 +208,7 @@ func (r *resolver) enter(d Definition) ([]Definition, error) {
 				return nil, err
 			} else if !on {
 				delete(hasNotification.Notifications(), ident)
+				noteFeatureOff(d, ident)
 				continue
 			}
 			if _, err := r.enter(n); err != nil {
@@ -297,6 +300,10 @@ func (r *resolver) copyOverSubmoduleData(main *Module, sub *Module) error {
 func (r *resolver) applyDeviation(y *Module, d *Deviation) error {
 	target := Find(y, d.Ident())
 	if target == nil {
+		if isFeatureOff(y, d.Ident()) {
+			// nothing to deviate, the target or a node above it has a feature that is off
+			return nil
+		}
 		return fmt.Errorf("could not find target for deviation %s", d.Ident())
 	}
 	if d.NotSupported {
@@ -600,6 +607,11 @@ func (r *resolver) addDefinitions(x HasDataDefinitions, defs []Definition) ([]De
 func (r *resolver) addDataDefinition(parent HasDataDefinitions, child Definition) ([]Definition, error) {
 	if hasIf, valid := child.(HasIfFeatures); valid {
 		if on, err := checkFeature(hasIf); err != nil || !on {
+			if err == nil {
+				if _, isUses := child.(*Uses); !isUses {
+					noteFeatureOff(parent, child.Ident())
+				}
+			}
 			return nil, err
 		}
 	}
@@ -657,6 +669,7 @@ func (r *resolver) expandUses(parent HasDataDefinitions, u *Uses) ([]Definition,
 		if on, err := checkFeature(a); err != nil {
 			return nil, err
 		} else if !on {
+			noteFeatureOff(parent, a.Ident())
 			continue
 		}
 		hasActions, validActions := parent.(HasActions)
@@ -675,6 +688,7 @@ func (r *resolver) expandUses(parent HasDataDefinitions, u *Uses) ([]Definition,
 		if on, err := checkFeature(a); err != nil {
 			return nil, err
 		} else if !on {
+			noteFeatureOff(parent, a.Ident())
 			continue
 		}
 		hasNotifs, validNotifs := parent.(HasNotifications)
@@ -883,6 +897,59 @@ func (r *resolver) findGrouping(y *Uses) (*Grouping, error) {
 	return found, nil
 }
 
+// noteFeatureOff remembers that parent would hold a node of this name were its features on:
+// a refine, an augment or a deviation about it, or about a node below it, has nothing to do
+func noteFeatureOff(parent Meta, ident string) {
+	top := parent
+	for top.Parent() != nil {
+		top = top.Parent()
+	}
+	if m, isModule := top.(*Module); isModule {
+		if m.featureOff == nil {
+			m.featureOff = make(map[Meta][]string)
+		}
+		m.featureOff[parent] = append(m.featureOff[parent], ident)
+	}
+}
+
+// isFeatureOff is true when the path, followed from p like Find does, comes to a node that
+// was left out because one of its features is off
+func isFeatureOff(p Meta, path string) bool {
+	if strings.HasPrefix(path, "/") {
+		p = RootModule(p)
+	}
+	for _, seg := range strings.Split(path, "/") {
+		if seg == "" {
+			continue
+		}
+		if colon := strings.IndexRune(seg, ':'); colon > 0 {
+			if _, isModule := p.(*Module); isModule {
+				if mod, err := RootModule(p).ModuleByPrefix(seg[:colon]); err == nil {
+					p = mod
+				}
+			}
+			seg = seg[colon+1:]
+		}
+		top := p
+		for top.Parent() != nil {
+			top = top.Parent()
+		}
+		if m, isModule := top.(*Module); isModule {
+			for _, ident := range m.featureOff[p] {
+				if ident == seg {
+					return true
+				}
+			}
+		}
+		next := Find(p, seg)
+		if next == nil {
+			return false
+		}
+		p = next
+	}
+	return false
+}
+
 func (r *resolver) applyRefinements(u *Uses, parent Definition) error {
 	var off []Definition
 	for _, refine := range u.refines {
@@ -892,7 +959,7 @@ func (r *resolver) applyRefinements(u *Uses, parent Definition) error {
 		}
 		target := Find(parent.(HasDataDefinitions), refine.Ident())
 		if target == nil {
-			if g, err := r.findGrouping(u); err == nil && r.featureOffOnPath(g.DataDefinitions(), strings.Split(refine.Ident(), "/"), nil) {
+			if isFeatureOff(parent, refine.Ident()) {
 				// the node is not there because one of its features is off, there is nothing to refine
 				continue
 			}
@@ -927,53 +994,6 @@ func (r *resolver) applyRefinements(u *Uses, parent Definition) error {
 		}
 	}
 	return nil
-}
-
-// featureOffOnPath is true when the node a path leads to inside the body of a grouping,
-// or a node on the way, has an if-feature that is off
-func (r *resolver) featureOffOnPath(defs []Definition, path []string, seen []*Grouping) bool {
-	if i := strings.IndexByte(path[0], ':'); i >= 0 {
-		path = append([]string{path[0][i+1:]}, path[1:]...)
-	}
-	for _, d := range defs {
-		if u, isUses := d.(*Uses); isUses {
-			g, err := r.findGrouping(u)
-			if err != nil {
-				continue
-			}
-			again := false
-			for _, s := range seen {
-				again = again || s == g
-			}
-			if !again && r.featureOffOnPath(g.DataDefinitions(), path, append(seen, g)) {
-				return true
-			}
-			continue
-		}
-		if d.Ident() != path[0] {
-			continue
-		}
-		if hasIf, valid := d.(HasIfFeatures); valid {
-			if on, err := checkFeature(hasIf); err == nil && !on {
-				return true
-			}
-		}
-		if len(path) == 1 {
-			return false
-		}
-		if ch, isChoice := d.(*Choice); isChoice {
-			var cases []Definition
-			for _, id := range ch.CaseIdents() {
-				cases = append(cases, ch.cases[id])
-			}
-			return r.featureOffOnPath(cases, path[1:], nil)
-		}
-		if x, valid := d.(HasDataDefinitions); valid {
-			return r.featureOffOnPath(x.DataDefinitions(), path[1:], nil)
-		}
-		return false
-	}
-	return false
 }
 
 func (r *resolver) refine(target Definition, y *Refine) error {
@@ -1031,6 +1051,10 @@ func (r *resolver) expandAugment(y *Augment, parent Meta) error {
 	//   output, or notification node."
 	target := Find(parent.(HasDataDefinitions), y.ident)
 	if target == nil {
+		if isFeatureOff(parent, y.ident) {
+			// nothing to add to, the target or a node above it has a feature that is off
+			return nil
+		}
 		return fmt.Errorf("%s - augment target is not found %s", SchemaPath(y), y.ident)
 	}
 
@@ -1042,6 +1066,9 @@ func (r *resolver) expandAugment(y *Augment, parent Meta) error {
 			if on, err := checkFeature(hasIf); err != nil {
 				return err
 			} else if !on {
+				if _, isUses := orig.(*Uses); !isUses {
+					noteFeatureOff(target, orig.Ident())
+				}
 				continue
 			}
 		}
@@ -1091,6 +1118,7 @@ func (r *resolver) expandAugment(y *Augment, parent Meta) error {
 		if on, err := checkFeature(orig); err != nil {
 			return err
 		} else if !on {
+			noteFeatureOff(target, orig.Ident())
 			continue
 		}
 		if _, allowed := target.(HasActions); !allowed {
@@ -1109,6 +1137,7 @@ func (r *resolver) expandAugment(y *Augment, parent Meta) error {
 		if on, err := checkFeature(orig); err != nil {
 			return err
 		} else if !on {
+			noteFeatureOff(target, orig.Ident())
 			continue
 		}
 		if _, allowed := target.(HasNotifications); !allowed {
